@@ -153,13 +153,15 @@ CLAIMED.update({
         text='Theorems (unbounded, UnescFacts): for EVERY string css_unescape over the REGENERATED pattern RE_CSS_ESC equals the CSS escape '
              'specification U (finditer of that pattern is characterised, then the substitution loop is followed); hence every spelling of an '
              'identifier (literal characters, backslash-character, 1-6 hex digits of either case with any legal terminator) unescapes to it and '
-             'two spellings are one name to the parser. Also: names and keywords are compared after ASCII lower-casing; every escape form of every code point below U+0800 '
+             'two spellings are one name to the parser. Theorem (unbounded, StrUnescFacts.css_unescape_str_spec): the same for STRING mode over the REGENERATED RE_CSS_STR_ESC - '
+             'for EVERY string css_unescape(s, True) equals the specification US (hex and character escapes, line continuations contribute nothing, a backslash is U+FFFD only at the very end), '
+             'with corollaries for every tail (a continuation at the head or right before the end of a value vanishes). Also: names and keywords are compared after ASCII lower-casing; every escape form of every code point below U+0800 '
              'decodes to that code point (kernel computation on the model\'s css_unescape over the regenerated escape regexes); a '
              'committed corpus of 24 selectors x 3 respellings compiles to equal structures in the model; line continuations of every kind contribute nothing to a '
              'quoted value in twelve contexts (finite kernel check on the regenerated RE_CSS_STR_ESC, StrContFacts). Differential: 4 respellings '
              'of each generated AST (white space/comments everywhere allowed, every escape form, line continuations inside quoted values, quote styles, bare identifiers, '
              'case) must compile to the structure of the canonical spelling, also through the model parser.',
-        note='the escape layer is proved for all strings; the unbounded print/parse theorem for whole selectors (white space, comments, quotes) is not proved (partial).',
+        note='the escape layer is proved for all strings in identifier and in string mode; the unbounded print/parse theorem for whole selectors (white space, comments, quote tokens) is not proved (partial).',
         technique='Coq parser model + kernel-checked escape/corpus facts + respelling differential'),
     'C10': dict(cat='proof', design='DESIGN.md §7 C10',
         text='Theorem (unbounded, UnescFacts.unescape_escape): for EVERY string s, css_unescape(escape(s)) = s with NUL replaced by U+FFFD, over the '
